@@ -64,8 +64,24 @@ def main():
     only = set(a.only.split(",")) if a.only else None
     try:
         return int(mod.run(only=only))
-    except Exception:
+    except Exception as e:
         traceback.print_exc()
+        tb = traceback.extract_tb(e.__traceback__)
+        inner = tb[-1].filename if tb else ""
+        if "/okdmr/" in inner and "/verif/" not in inner:
+            # the exception was raised *inside the library* while the harness was preparing or running cases on inputs the
+            # property covers (on the unchanged tree this never happens): report it, do not hide it behind a checker crash
+            from mc.report import exc_sig
+
+            rdir = os.environ.get("VERIF_REPLAY_DIR") or os.path.join(HERE, "replays")
+            os.makedirs(rdir, exist_ok=True)
+            path = os.path.join(rdir, f"{pid}-crash.json")
+            with open(path, "w") as f:
+                json.dump({"property": pid, "check": "harness", "sig": "library_raised_while_preparing_cases:" + exc_sig(e),
+                           "what": "the library raised on an in-domain input outside any guarded case", "traceback": traceback.format_exc()[-4000:]}, f, indent=1)
+            print(f"  violation sig=harness:library_raised_while_preparing_cases:{exc_sig(e)} count=1 {e!r}")
+            print(f"VIOLATION property={pid} replay={path}")
+            return 1
         print(f"INTERNAL-ERROR: check {pid} crashed (checker bug or import failure), no verdict")
         return 2
 
